@@ -290,6 +290,63 @@ def check_outside(tree, spec, rec=None):
         shutil.rmtree(root, ignore_errors=True)
 
 
+def check_link_resolution(rec):
+    """Targets that pass through other links: what counts is where the operating system takes the link (all but the
+    last component resolved), not a textual simplification of the target string."""
+    root = new_scratch("vt-c19r-")
+    try:
+        def fresh(name):
+            d = os.path.join(root, name)
+            os.makedirs(os.path.join(d, "sub"))
+            os.makedirs(os.path.join(d, "deep", "x", "y"))
+            for f in ("f", "deep/f", "deep/other"):
+                with open(os.path.join(d, f), "wb") as fh:
+                    fh.write(f.encode())
+            return d
+
+        with open(os.path.join(root, "secret.txt"), "wb") as fh:
+            fh.write(b"outside")
+        # (a) leaves the directory through an inner link that points at the directory itself
+        d = fresh("a")
+        os.symlink("..", os.path.join(d, "sub", "up"))  # -> d (inside)
+        os.symlink("sub/up/../secret.txt", os.path.join(d, "esc"))  # -> <parent of d>/secret.txt
+        case = dict(kind="linkres", which="escape-through-inner-link")
+        try:
+            res = HS.dir_hashsums(Path(d))
+            rec.fail("C19:outside-link-accepted:through-inner-link", case, f"esc -> sub/up/../secret.txt (really {os.path.realpath(os.path.join(d, 'esc'))}) "
+                     f"recorded as {res.get('esc')!r}", "ValueError")
+        except ValueError:
+            pass
+        rec.case(nt_key=["linkres", "a"], classes=["link_through_link"], sample=case)
+        # (b) stays inside although the text of the target seems to go up too far
+        d = fresh("b")
+        os.symlink("deep/x/y", os.path.join(d, "s"))
+        os.symlink("s/../../other", os.path.join(d, "l"))  # -> deep/other
+        case = dict(kind="linkres", which="inside-through-link")
+        try:
+            res = HS.dir_hashsums(Path(d))
+            if res.get("l") != "symlink:deep/other":
+                rec.fail("C19:differs-from-model:link-through-link", case, res.get("l"), "symlink:deep/other")
+        except ValueError as e:
+            rec.fail("C19:inside-link-rejected", case, f"l -> s/../../other points to {os.path.realpath(os.path.join(d, 'l'))}: {e}", "symlink:deep/other")
+        rec.case(nt_key=["linkres", "b"], classes=["link_through_link"], sample=case)
+        # (c) two different targets
+        d1, d2 = fresh("c1"), fresh("c2")
+        for dd, tgt in ((d1, "f"), (d2, "s/../f")):
+            os.symlink("deep/x", os.path.join(dd, "s"))
+            os.symlink(tgt, os.path.join(dd, "l"))  # d1: -> f, d2: -> deep/f
+        case = dict(kind="linkres", which="retarget-through-link")
+        try:
+            h1, h2 = HS.dir_hashsums(Path(d1)), HS.dir_hashsums(Path(d2))
+            if h1 == h2:
+                rec.fail("C19:edit-invisible:retarget-through-link", case, f"l -> f and l -> s/../f (= deep/f) both recorded as {h1.get('l')!r}", "different trees")
+        except ValueError as e:
+            rec.fail("C19:inside-link-rejected", case, str(e), "accepted")
+        rec.case(nt_key=["linkres", "c"], classes=["link_through_link"], sample=case)
+    finally:
+        shutil.rmtree(root, ignore_errors=True)
+
+
 class ChunkyStream(io.RawIOBase):
     """Binary stream that returns short reads according to a generated chunking."""
 
@@ -329,12 +386,15 @@ EDIT = st.tuples(st.sampled_from(["content_byte", "content_byte", "rename", "add
 def plan(tier, seed):
     return ([dict(name=f"trees-{i}", kind="trees", i=i) for i in range(12)]
             + [dict(name=f"outside-{i}", kind="outside", i=i) for i in range(2)]
-            + [dict(name=f"stream-{i}", kind="stream", i=i) for i in range(2)])
+            + [dict(name=f"stream-{i}", kind="stream", i=i) for i in range(2)] + [dict(name="linkres", kind="linkres", i=0)])
 
 
 def run_shard(shard, tier, seed, rec):
     k = shard["kind"]
     s = seed * 100 + shard["i"]
+    if k == "linkres":
+        check_link_resolution(rec)
+        return
     if k == "trees":
         n = {"quick": 110, "thorough": 3500}[tier]
         strat = st.tuples(D.trees(3, 4), st.integers(0, 40), st.lists(EDIT, min_size=1, max_size=3))
@@ -364,7 +424,9 @@ def run_shard(shard, tier, seed, rec):
 def replay(rp, rec):
     case = rp["case"]
     try:
-        if isinstance(case, (list, tuple)) and len(case) == 3 and isinstance(case[0], dict):
+        if isinstance(case, dict) and case.get("kind") == "linkres":
+            check_link_resolution(rec)
+        elif isinstance(case, (list, tuple)) and len(case) == 3 and isinstance(case[0], dict):
             check_tree(case[0], case[1], rec, [list(e) for e in case[2]])
         elif isinstance(case, (list, tuple)) and len(case) == 2:
             check_outside(case[0], tuple(case[1]), rec)
